@@ -63,6 +63,24 @@ Definition same_view (a b : op) : bool :=
 Definition contradictory (items : list (op * out)) : bool :=
   existsb (fun p => existsb (fun q => same_view (fst p) (fst q) && negb (out_eqb (snd p) (snd q))) items) items.
 
+(* a per-register frequency view that no list of nshots admissible shots can produce: a register
+   total differs from nshots, or a key is not the projection of any shot of non-zero probability *)
+Definition marginal_support (cfg : config) (w : list Z) (reg : list nat) : list nat :=
+  map (spec_reg_dec cfg reg)
+      (filter (in_support (ck cfg) (born_vec (c_n cfg) (cQ cfg) w)) (seq 0 (2 ^ ck cfg))).
+Definition regfreq_impossible (cfg : config) (w : list Z) (ns : nat) (x : out) : bool :=
+  match x with
+  | ORegFreqDec l =>
+      negb (forall2b (fun reg f => (total f =? ns) &&
+                                   forallb (fun v => existsb (Nat.eqb v) (marginal_support cfg w reg)) (keys f))
+                     (c_regs cfg) l)
+  | ORegFreqBin l =>
+      negb (forall2b (fun reg fb => (total (benc fb) =? ns) &&
+                                    forallb (fun p => existsb (Nat.eqb (to_dec (fst p))) (marginal_support cfg w reg)) fb)
+                     (c_regs cfg) l)
+  | _ => false
+  end.
+
 Definition spec_verdict (cfg : config) (h : list op) (xs : list out) (r : nat) (R : result)
            (cand : option (list nat)) : nat :=
   let items := items_of r h xs in
@@ -75,6 +93,7 @@ Definition spec_verdict (cfg : config) (h : list op) (xs : list out) (r : nat) (
          forallb (fun p => explainsb cfg (r_w R) sh (fst p) (snd p)) items
       then 0
       else if existsb (fun p => forces (fst p)) items || contradictory items
+              || existsb (fun p => regfreq_impossible cfg (r_w R) (r_nshots R) (snd p)) items
               || negb (forallb (fun p => needs_shots (fst p) || explainsb cfg (r_w R) sh (fst p) (snd p)) items)
            then 1 else 2
   end.
